@@ -233,9 +233,9 @@ fn gen_basic(g: &mut Gen, u: &Universe) -> BasicRequirement {
 }
 
 /// `depth` = depth of this node (root 0, must stay <= MAX_ACCESS_RULE_DEPTH); `budget` = composite nodes left.
-fn gen_composite(g: &mut Gen, u: &Universe, depth: usize, budget: &mut usize, prefer_branch: bool) -> CompositeRequirement {
+fn gen_composite(g: &mut Gen, u: &Universe, depth: usize, max_depth: usize, budget: &mut usize, prefer_branch: bool) -> CompositeRequirement {
     *budget = budget.saturating_sub(1);
-    let can_branch = depth < MAX_ACCESS_RULE_DEPTH && *budget >= 1;
+    let can_branch = depth < max_depth && *budget >= 1;
     let w_branch = if !can_branch {
         0
     } else if prefer_branch {
@@ -253,7 +253,7 @@ fn gen_composite(g: &mut Gen, u: &Universe, depth: usize, budget: &mut usize, pr
                 if *budget == 0 {
                     break;
                 }
-                children.push(gen_composite(g, u, depth + 1, budget, deep_chain));
+                children.push(gen_composite(g, u, depth + 1, max_depth, budget, deep_chain));
             }
             if k == 1 {
                 CompositeRequirement::AnyOf(children)
@@ -264,11 +264,11 @@ fn gen_composite(g: &mut Gen, u: &Universe, depth: usize, budget: &mut usize, pr
     }
 }
 
-fn gen_rule(g: &mut Gen, u: &Universe) -> AccessRule {
+fn gen_rule(g: &mut Gen, u: &Universe, max_depth: usize) -> AccessRule {
     match g.weighted(&[30, 1, 1]) {
         0 => {
             let mut budget = if g.chance(1, 8) { MAX_COMPOSITE_REQUIREMENTS } else { 4 + g.below(20) as usize };
-            AccessRule::Protected(gen_composite(g, u, 0, &mut budget, true))
+            AccessRule::Protected(gen_composite(g, u, 0, max_depth, &mut budget, true))
         }
         1 => AccessRule::AllowAll,
         _ => AccessRule::DenyAll,
@@ -356,8 +356,9 @@ struct Sb {
 }
 
 impl Sb {
-    fn new() -> Sb {
-        Sb { ops: Vec::new(), slots: 0 }
+    /// a script that can see the given global nodes
+    fn new(visible: &[NodeId]) -> Sb {
+        Sb { ops: vec![import_refs(visible)], slots: visible.len() as u8 }
     }
     fn auth_zone(&mut self) -> u8 {
         self.ops.push(Op::ActorGetNodeId(ACTOR_REF_AUTH_ZONE));
@@ -432,8 +433,8 @@ enum Callee {
 }
 
 /// Script of a frame that pushes `own` proofs to its own zone and then asserts `rule` against that zone.
-fn assert_script(own: &[Spec], rule: &AccessRule, oa: ComponentAddress) -> Script {
-    let mut sb = Sb::new();
+fn assert_script(own: &[Spec], rule: &AccessRule, oa: ComponentAddress, refs: &[NodeId]) -> Script {
+    let mut sb = Sb::new(refs);
     let az = sb.auth_zone();
     for s in own {
         sb.push_proof(az, oa, s);
@@ -490,7 +491,6 @@ fn case(g: &mut Gen) -> Outcome {
             (e.oa, e.g, e.role_pkg)
         };
         let (p_pkg, q_pkg) = (w.puppet_p, w.puppet_q);
-        let rule = gen_rule(g, &u);
         let via = *g.pick(&[Via::Direct, Via::Func, Via::Method, Via::Owned]);
         let shape = {
             let mut shapes = vec![
@@ -510,6 +510,26 @@ fn case(g: &mut Gen) -> Outcome {
                 *g.pick(&shapes)
             }
         };
+        // a package definition travels in a (system) manifest, whose SBOR depth limit of 24 leaves room for four
+        // composite levels; every other rule is installed from blueprint code (Scrypto SBOR, depth 64)
+        let rule = gen_rule(g, &u, if shape == Shape::Function { 3 } else { MAX_ACCESS_RULE_DEPTH });
+        let all_refs: Vec<NodeId> = vec![
+            *oa.as_node_id(),
+            *gcomp.as_node_id(),
+            *p_pkg.as_node_id(),
+            *q_pkg.as_node_id(),
+            *role_pkg.as_node_id(),
+            *u.f0.as_node_id(),
+            *u.f1.as_node_id(),
+            *u.nfa.as_node_id(),
+            *u.nfb.as_node_id(),
+            *u.absent_f.as_node_id(),
+            *u.absent_nf.as_node_id(),
+            *SECP256K1_SIGNATURE_RESOURCE.as_node_id(),
+            *ED25519_SIGNATURE_RESOURCE.as_node_id(),
+            *GLOBAL_CALLER_RESOURCE.as_node_id(),
+            *PACKAGE_OF_DIRECT_CALLER_RESOURCE.as_node_id(),
+        ];
         // ---- placement ----
         let mut signers: Vec<NonFungibleGlobalId> = Vec::new();
         let mut signer_keys: Vec<PublicKey> = Vec::new();
@@ -638,10 +658,24 @@ fn case(g: &mut Gen) -> Outcome {
                     mint_roles: mint_roles! { minter => minter; minter_updater => rule!(deny_all); },
                     ..Default::default()
                 };
-                let m = ManifestBuilder::new()
-                    .lock_fee_from_faucet()
-                    .create_fungible_resource(owner, true, 18, roles, metadata!(), None)
-                    .build();
+                let script = Script(vec![
+                    import_refs(&all_refs),
+                    Op::CallFunction {
+                        package: RESOURCE_PACKAGE,
+                        blueprint: FUNGIBLE_RESOURCE_MANAGER_BLUEPRINT.into(),
+                        function: FUNGIBLE_RESOURCE_MANAGER_CREATE_IDENT.into(),
+                        args: scrypto_encode(&FungibleResourceManagerCreateInput {
+                            owner_role: owner,
+                            track_total_supply: true,
+                            divisibility: 18,
+                            resource_roles: roles,
+                            metadata: metadata!(),
+                            address_reservation: None,
+                        })
+                        .unwrap(),
+                    },
+                ]);
+                let m = w.puppet_manifest(p_pkg, &script);
                 let run = w.run(m, vec![]);
                 if !run.is_success() {
                     return setup_fail("create resource", &run);
@@ -657,46 +691,43 @@ fn case(g: &mut Gen) -> Outcome {
                 let sim = &mut w.sim;
                 match vf_core::catch(move || sim.publish_native_package(CODE_FN_PKG, def)) {
                     Ok(pkg) => Some(Callee::Function(pkg, Script(vec![]))),
+                    Err(p) if p.contains("MaxDepthExceeded") => return Outcome::Discard,
                     Err(p) => return Outcome::fail("harness: C08 setup (publish protected package) failed", format!("rule {}: {}", describe_rule(&rule), p)),
                 }
             }
-            Shape::Assert => Some(Callee::Function(q_pkg, assert_script(&callee_own, &rule, oa))),
+            Shape::Assert => Some(Callee::Function(q_pkg, assert_script(&callee_own, &rule, oa, &all_refs))),
             Shape::AssertInOwned => None,
             Shape::PuppetRole | Shape::PuppetOwnerFallback => {
                 let unit = scrypto_encode(&()).unwrap();
-                let script = if shape == Shape::PuppetOwnerFallback {
-                    Script(vec![
-                        Op::NewObject { blueprint: PUPPET_BLUEPRINT.into(), fields: vec![(0, unit.clone(), false), (1, unit.clone(), false), (2, unit.clone(), false)], kv: vec![] },
-                        Op::Globalize {
-                            object: N::Slot(0),
-                            owner: if owner_updatable { OwnerSpec::Updatable(rule.clone()) } else { OwnerSpec::Fixed(rule.clone()) },
-                            reservation: None,
-                            with_royalty: false,
-                        },
-                    ])
+                let mut by_module = index_map_new();
+                let owner_role: OwnerRoleEntry = if shape == Shape::PuppetOwnerFallback {
+                    by_module.insert(ModuleId::Main, RoleAssignmentInit { data: index_map_new() });
+                    owner_of(&rule).into()
                 } else {
                     let mut data = index_map_new();
                     data.insert(RoleKey::new("r"), Some(rule.clone()));
-                    let mut by_module = index_map_new();
                     by_module.insert(ModuleId::Main, RoleAssignmentInit { data });
-                    Script(vec![
-                        Op::NewObject { blueprint: PUPPET_BLUEPRINT.into(), fields: vec![(0, unit.clone(), false), (1, unit.clone(), false), (2, unit.clone(), false)], kv: vec![] },
-                        Op::CallFunction {
-                            package: ROLE_ASSIGNMENT_MODULE_PACKAGE,
-                            blueprint: ROLE_ASSIGNMENT_BLUEPRINT.into(),
-                            function: ROLE_ASSIGNMENT_CREATE_IDENT.into(),
-                            args: scrypto_encode(&RoleAssignmentCreateInput { owner_role: OwnerRole::None.into(), roles: by_module }).unwrap(),
-                        },
-                        Op::CallFunction {
-                            package: METADATA_MODULE_PACKAGE,
-                            blueprint: METADATA_BLUEPRINT.into(),
-                            function: METADATA_CREATE_IDENT.into(),
-                            args: scrypto_encode(&MetadataCreateInput {}).unwrap(),
-                        },
-                        // slots: 0 object, 1 bytes, 2 role assignment, 3 bytes, 4 metadata
-                        Op::GlobalizeWithModules { object: N::Slot(0), role_assignment: N::Slot(2), metadata: N::Slot(4), reservation: None },
-                    ])
+                    OwnerRole::None.into()
                 };
+                let k = all_refs.len() as u8;
+                let script = Script(vec![
+                    import_refs(&all_refs),
+                    Op::NewObject { blueprint: PUPPET_BLUEPRINT.into(), fields: vec![(0, unit.clone(), false), (1, unit.clone(), false), (2, unit.clone(), false)], kv: vec![] },
+                    Op::CallFunction {
+                        package: ROLE_ASSIGNMENT_MODULE_PACKAGE,
+                        blueprint: ROLE_ASSIGNMENT_BLUEPRINT.into(),
+                        function: ROLE_ASSIGNMENT_CREATE_IDENT.into(),
+                        args: scrypto_encode(&RoleAssignmentCreateInput { owner_role, roles: by_module }).unwrap(),
+                    },
+                    Op::CallFunction {
+                        package: METADATA_MODULE_PACKAGE,
+                        blueprint: METADATA_BLUEPRINT.into(),
+                        function: METADATA_CREATE_IDENT.into(),
+                        args: scrypto_encode(&MetadataCreateInput {}).unwrap(),
+                    },
+                    // slots after the imports: +0 object, +1 bytes, +2 role assignment, +3 bytes, +4 metadata
+                    Op::GlobalizeWithModules { object: N::Slot(k), role_assignment: N::Slot(k + 2), metadata: N::Slot(k + 4), reservation: None },
+                ]);
                 let m = w.puppet_manifest(role_pkg, &script);
                 let run = w.run(m, vec![]);
                 if !run.is_success() {
@@ -724,8 +755,15 @@ fn case(g: &mut Gen) -> Outcome {
             };
         }
         // script of the frame making the protected call (for every via except Direct)
+        let mut visible_nodes: Vec<NodeId> = all_refs.clone();
+        match callee.as_ref() {
+            Some(Callee::Mint(r)) | Some(Callee::MetadataSet(r)) => visible_nodes.push(*r.as_node_id()),
+            Some(Callee::Method(c)) => visible_nodes.push(*c.as_node_id()),
+            Some(Callee::Function(pkg, _)) => visible_nodes.push(*pkg.as_node_id()),
+            None => {}
+        }
         let caller_script = |own: &[Spec], drops: bool, last: &dyn Fn(&mut Sb)| -> Script {
-            let mut sb = Sb::new();
+            let mut sb = Sb::new(&visible_nodes);
             let az = sb.auth_zone();
             for s in own {
                 sb.push_proof(az, oa, s);
@@ -753,7 +791,7 @@ fn case(g: &mut Gen) -> Outcome {
             }
             Via::Owned => {
                 let inner = if shape == Shape::AssertInOwned {
-                    assert_script(&owned_proofs, &rule, oa)
+                    assert_script(&owned_proofs, &rule, oa, &all_refs)
                 } else {
                     caller_script(&owned_proofs, false, &|sb| sb.callee(callee.as_ref().unwrap(), oa))
                 };
